@@ -228,6 +228,19 @@ W_TINY = {  # a rule all of whose declared weights are tiny (relative weights: o
 }
 
 
+W_TINY_BESIDE_HEAVY = {  # a tiny share next to a zero and a heavy RECURSIVE production: where the depth heuristic rules the
+    # heavy one out, the chooser is left with [0, ~1e-7] - below the 1e-5 that choice_weighted resolves
+    "name": "w_tiny_beside_heavy",
+    "abstracts": [{"name": "A", "parent": None, "style": "decorator"}],
+    "prods": [
+        {"name": "Z", "parent": "A", "fields": [], "weight": 0},
+        {"name": "T", "parent": "A", "fields": [], "weight": 1e-7},
+        {"name": "R", "parent": "A", "fields": [["l", ["ref", "A"]], ["r", ["ref", "A"]]], "weight": 1},
+    ],
+    "start": "A",
+}
+
+
 def run_case(case, rec):
     HOLDER["rec"] = rec
     desc = grammars.gen_descriptor(case["seed"] * 7919 + case["i"], "weighted")
@@ -243,6 +256,9 @@ def run_case(case, rec):
     if case["i"] % 25 == 3:
         desc = dict(W_TINY)
         rec.count("hierarchies_with_tiny_weights")
+    if case["i"] % 25 == 17:
+        desc = dict(W_TINY_BESIDE_HEAVY)
+        rec.count("hierarchies_with_a_tiny_share_beside_a_heavy_recursive_production")
     if case["i"] % 25 == 13:
         desc = dict(UNLISTED_WEIGHT)
         rec.count("hierarchies_whose_only_weight_is_on_an_unlisted_class")
